@@ -52,6 +52,7 @@ struct S_class_2eFIX8_3a_3aBaseField *x__ZN4FIX811MessageBase6removeEt(struct S_
 uint8_t x_vf_msg_is_admin(uint8_t *m) { return a_admin[midx(m)]; }
 void st_msg_delete(void *m) { a_deleted[midx(m)]++; }
 void st_nop1(void *p) { }
+void st_fmt_s(void *e, void *what, void *val) { }
 void st_thread_ctor(void *t, void *ref, uint64_t f0, uint64_t a0, uint64_t f1, uint64_t a1) { }
 uint64_t x__ZNK4FIX87Message6encodeEPPc(struct S_class_2eFIX8_3a_3aMessage *m, uint8_t **to)
 {
